@@ -336,6 +336,46 @@ func cmdCheck(args []string) int {
 			os.WriteFile(filepath.Join(*dump, sanitize(o.Name)+".smt2"), []byte(o.smt()+"(get-model)\n"), 0o644)
 		}
 	}
+	// bounded conformance harnesses for what the verifier cannot reach (native machine code)
+	var bounded []*conformResult
+	if os.Getenv("GOWP_NOCONFORM") == "" && *only == "" {
+		bounded = runConform(prop)
+	}
+	conformSeen := map[string]bool{}
+	for _, r := range bounded {
+		if r.Status == "not-run" {
+			fmt.Printf("bounded harness %s %v did not run (it does not build or timed out on this tree); nothing is concluded from it\n", r.Test, r.Env)
+			continue
+		}
+		for _, f := range r.fails {
+			name := "conform:" + f.ID
+			if conformSeen[name] {
+				continue
+			}
+			conformSeen[name] = true
+			if kf := matchKnown(known, prop, name); kf != nil {
+				fmt.Printf("KNOWN-FINDING: property=%s %s [%s]\n", prop, kf.Description, name)
+				knownHit = append(knownHit, name)
+				continue
+			}
+			violations++
+			path := writeConformReplay(prop, r, f)
+			if prop == "ALL" {
+				var ps []string
+				for _, h := range loadConform() {
+					for _, t := range h.Tests {
+						if t.Name == r.Test {
+							ps = t.Props
+						}
+					}
+				}
+				fmt.Printf("FAILED[%s] %s (bounded harness %s %s): %s\n", strings.Join(ps, ","), name, r.Test, f.Env, f.Msg)
+			} else {
+				fmt.Printf("FAILED %s (bounded harness %s %s): %s\n", name, r.Test, f.Env, f.Msg)
+			}
+			fmt.Printf("VIOLATION property=%s replay=%s\n", prop, path)
+		}
+	}
 	wall := time.Since(start).Seconds()
 	// evidence
 	tb := []string{
@@ -363,6 +403,11 @@ func cmdCheck(args []string) int {
 	if len(samples) == 0 {
 		samples = append(samples, "no obligations")
 	}
+	boundedEv := []interface{}{}
+	for _, r := range bounded {
+		boundedEv = append(boundedEv, r)
+		assumptions = append(assumptions, fmt.Sprintf("BOUNDED stand-in (not proof, not counted): %s %v on %s: %s; bound: %s; %d cases, %d failing, status %s", r.Test, r.Env, r.Pkg, r.What, r.Bound, r.Cases, r.Failures, r.Status))
+	}
 	ev := map[string]interface{}{
 		"property_id": prop,
 		"tier":        *tier,
@@ -387,6 +432,7 @@ func cmdCheck(args []string) int {
 			"cross_check_confirmed":    xcConfirmed,
 			"cross_check_unconfirmed":  xcUnconfirmed,
 			"cross_check_disagreements": len(xcDisagree),
+			"bounded_checks":           boundedEv,
 		},
 		"assumptions": assumptions,
 		"wall_s":      round2(wall),
